@@ -1,0 +1,51 @@
+// Copyright 2026 Blink Labs Software
+//
+// Licensed under the Apache License, Version 2.0 (the "License");
+// you may not use this file except in compliance with the License.
+// You may obtain a copy of the License at
+//
+//     http://www.apache.org/licenses/LICENSE-2.0
+//
+// Unless required by applicable law or agreed to in writing, software
+// distributed under the License is distributed on an "AS IS" BASIS,
+// WITHOUT WARRANTIES OR CONDITIONS OF ANY KIND, either express or implied.
+// See the License for the specific language governing permissions and
+// limitations under the License.
+
+//go:build verif
+
+package pipeline
+
+// Verification hooks (build tag `verif` only). They observe the pipeline,
+// they never change what it does.
+
+const verifEnabled = true
+
+// VerifTrace, when set, receives one call per pipeline event:
+//
+//	alloc / sub_ok / sub_fail            Submit: sequence allocated, item accepted, submission failed
+//	<stage>_take / _put / _drop          worker took an item, is about to forward it, dropped it on cancel
+//	apply_take / apply_deq / apply_buf   apply runner received an item, dequeued it in order, buffered it
+//	apply_cancel / apply_done            apply skipped because of cancellation, item left the apply stage
+//	result / result_drop                 item about to be sent on Results(), dropped on cancel
+//	pending_count                        PendingCount() returned n (item is nil)
+//
+// It must be set before Start and not changed while a pipeline runs.
+var VerifTrace func(kind string, item *BlockItem, n int)
+
+// VerifStageDelay, when set, is called by a stage worker (stage "decode",
+// "validate") or the apply runner (stage "apply") between taking an item
+// and processing it, so that a harness can hold an item inside a worker.
+var VerifStageDelay func(stage string, item *BlockItem)
+
+func verifTrace(kind string, item *BlockItem, n int) {
+	if f := VerifTrace; f != nil {
+		f(kind, item, n)
+	}
+}
+
+func verifStageDelay(stage string, item *BlockItem) {
+	if f := VerifStageDelay; f != nil {
+		f(stage, item)
+	}
+}
